@@ -70,7 +70,11 @@ func (c *Ctx) cevalBoolEnv(e ast.Expr, env *CEnv) (res string) {
 					res = "false"
 					return
 				}
-				c.bindingErrors = append(c.bindingErrors, fmt.Sprintf("%s: %s", c.eng.exprString(e), ce.msg))
+				prefix := ""
+				if len(c.curTags) > 0 {
+					prefix = "[" + strings.Join(c.curTags, ",") + "] "
+				}
+				c.bindingErrors = append(c.bindingErrors, prefix+fmt.Sprintf("%s: %s", c.eng.exprString(e), ce.msg))
 				res = "false"
 				return
 			}
@@ -527,8 +531,36 @@ func (env *CEnv) evalCall(x *ast.CallExpr) (Value, types.Type) {
 				cfail("unknown type %s", tn)
 			}
 			return c.fromInterface(env.s, asInt(v), t), t
-		case "asiface":
-			// asiface(e, "pkg.Iface"): a ghost value (stored as a bare reference) viewed as a value of the interface type
+		case "escaped":
+			// escaped(s, k): the address of element k of slice s has been taken (&s[k]) in this function
+			sv0, st0 := env.eval(x.Args[0])
+			kv, _ := env.eval(x.Args[1])
+			slt, ok := st0.Underlying().(*types.Slice)
+			if !ok {
+				cfail("escaped: not a slice")
+			}
+			svv := sv0.(SliceV)
+			esc := c.heapGet(env.s, "X.esc."+memKey(slt.Elem()), sA2)
+			return BoolV{eq(sel(sel(esc, svv.Ref), add(svv.Off, asInt(kv))), "1")}, tBool
+		case "elemaddr":
+			// elemaddr(s, k): the pointer &s[k] (for slices allocated by the function whose element addresses are taken)
+			sv0, st0 := env.eval(x.Args[0])
+			kv, _ := env.eval(x.Args[1])
+			slt, ok := st0.Underlying().(*types.Slice)
+			if !ok {
+				cfail("elemaddr: not a slice")
+			}
+			svv := sv0.(SliceV)
+			fn := sanitize("eptr." + typeKey(slt.Elem()))
+			if _, ok := c.decls[fn]; !ok {
+				c.declareFun(fn, 2, sInt)
+				c.declareFun(fn+".ref", 1, sInt)
+				c.declareFun(fn+".idx", 1, sInt)
+			}
+			return IntV{app(fn, svv.Ref, add(svv.Off, asInt(kv)))}, types.NewPointer(slt.Elem())
+		case "asiface", "astype":
+			// asiface(e, "pkg.Iface") / astype(e, "*pkg.T"): a ghost value (stored as a bare reference) viewed as a value of
+			// the interface or pointer type
 			v, _ := env.eval(x.Args[0])
 			lit, ok := x.Args[1].(*ast.BasicLit)
 			if !ok {
